@@ -377,32 +377,29 @@ func runC04(c *Ctx) {
 		c04V4Exits(c, f, pa)
 	}
 	if f := c.fn("netutil", "reverseIPv4"); f != nil {
-		perm := map[int64]int64{}
-		core.EachInstr(f, func(in ssa.Instruction) {
-			st, ok := in.(*ssa.Store)
-			if !ok {
-				return
-			}
-			ia, ok := st.Addr.(*ssa.IndexAddr)
-			if !ok {
-				return
-			}
-			dst, isK := core.ConstInt(ia.Index)
-			ld, isLd := st.Val.(*ssa.UnOp)
-			if !isK || !isLd {
-				return
-			}
-			if sa, ok := ld.X.(*ssa.IndexAddr); ok {
-				if src, isK := core.ConstInt(sa.Index); isK {
-					perm[dst] = src
+		// exact: the four output bytes as Boolean functions of the 32 input bits
+		m := boolfn.New()
+		ev := &boolfn.Eval{M: m, Entered: map[string]bool{}}
+		ev.InScope = func(fn *ssa.Function) bool { return core.InModule(fn) }
+		in := ev.ArrayInput(0, 4)
+		rs, err := ev.Call(f, []boolfn.Val{in})
+		okP, perm := false, "not evaluated"
+		if err != nil {
+			perm = "outside the evaluator's grammar: " + err.Error()
+		} else if len(rs) == 1 && rs[0].Kind == boolfn.KArray && len(rs[0].Elems) == 4 {
+			okP, perm = true, "out[k] == in[3-k] for k = 0..3, bit for bit"
+			for k := 0; k < 4; k++ {
+				for b := 0; b < 8; b++ {
+					if rs[0].Elems[k][b] != in.Elems[3-k][b] {
+						okP = false
+						perm = sprintf("out[%d] bit %d is not in[%d] bit %d", k, b, 3-k, b)
+					}
 				}
 			}
-		})
-		okP := len(perm) == 4
-		for k := int64(0); k < 4; k++ {
-			okP = okP && perm[k] == 3-k
+		} else {
+			perm = "result is not a 4-byte array"
 		}
-		c.check(okP, "C04.v4.parse", f, "reverseIPv4 is the permutation k -> 3-k", nil, sprintf("found %v", perm))
+		c.check(okP, "C04.v4.parse", f, "reverseIPv4 is the permutation k -> 3-k", nil, perm)
 	}
 	// ---- R4 encoder ----
 	if f := c.fn("netutil", "IPToReversedAddr"); f != nil {
